@@ -189,12 +189,16 @@ CHECKS = {
                  "(exercised). SubDirFS composition is not yet covered by a suite."),
     },
     "C12": {
-        "text": ("Lean theorems (unbounded): ComparePath is a strict total order (cmp_irrefl/trans/total/asymm) and equals component-wise lexicographic "
-                 "comparison (cmp_eq_componentwise); the component-level validator accepts exactly the ascending, parent-closed sequences of plain paths "
-                 "(validator_iff_spec_components); the repaired lexical test admits exactly plain component lists (lexical_test_iff_plain). "
-                 "The byte-level executable transcription of Validator.HandleChange (incl. sort.Search) and the property's own executable spec are both run "
-                 "against the Go code on exhaustive short sequences over a 24-path alphabet and random mutated tree walks."),
-        "note": ("Trusted: Lean kernel + propext/Classical.choice/Quot.sound; that the byte-level model equals the Go code beyond the generated inputs; "
-                 "Go stdlib filepath/sort as modelled. The bridge byte-level model -> component-level theorem is by correspondence (both are run), not yet a Lean theorem."),
+        "text": ("Lean theorems (unbounded): validator_eq_spec - the VERBATIM byte-level transcription of Validator.HandleChange (lexical tests on the "
+                 "byte string, filepath.Clean/Dir/Base, the sort.Search binary search over parentDirs, ComparePath, the last-child comparison) returns for "
+                 "every change sequence (any length, arbitrary byte strings, adds and deletes) exactly what the property's specification returns: accept, or "
+                 "reject at the same index; it never reaches an out-of-range index (validator_never_panics). Proved by a simulation onto the component-level "
+                 "validator (validator_iff_spec_components) through Dir/Base lemmas on plain paths, binary-search correctness over the chain-shaped stack and "
+                 "cmp_eq_componentwise. ComparePath is a strict total order (cmp_irrefl/trans/total/asymm); lexical_test_iff_plain; F1 witnesses. "
+                 "Correspondence: the transcription and the specification are both run against the Go code on exhaustive short sequences over a 24-path "
+                 "alphabet and random mutated tree walks."),
+        "note": ("Trusted: Lean kernel + propext/Classical.choice/Quot.sound; that the byte-level transcription equals the Go code beyond the generated inputs "
+                 "(decided by the correspondence suite); Go stdlib filepath/sort as transcribed (filepath functions are compared with the stdlib by the pathfn suite)."),
     },
+
 }
